@@ -1049,6 +1049,9 @@ class SemanticErrorChecker:
             return isinstance(value, str)
         if isinstance(value, Struct):
             return value.name == value_type
+        if value_type in self.structs:
+            # a Struct is expected but the value is a primitive
+            return False
         # value was a string
         return True
 
